@@ -16,7 +16,8 @@ import textreaders as TR  # noqa: E402
 # label alphabets; every label is non-empty, without leading/trailing whitespace or line breaks (table / cxt domain)
 PLAIN = ['X', '.', '0', '1', 'a b', 'x,y', '"q"', "it's", 'a;b', 'ü', 'Жук', '日本', 'a\tb', '-', '+1', '*', '()',
          '[x]', '{}', '<=>', 'a=b', '\\', '/', '%s', '{0}', 'None', 'X.', '..', 'B', 'x:y', '~', '$', '&amp;', '@',
-         'p q r', 'é', 'ñ', 'ß', "''", '""', '`', '^', '?', 'Ω', 'a.b', '0x1F', '1e5', 'True', '\\n', 'è_é']
+         'p q r', 'é', 'ñ', 'ß', "''", '""', '`', '^', '?', 'Ω', 'a.b', '0x1F', '1e5', 'True', '\\n', 'è_é',
+         'caf\u00e9', 'cafe\u0301', '\u00c5', '\u212b', '\u2126', 'ss', '\ufb01', 'fi', 'a', 'A']
 BANG = ['!', '!!', 'a!b', 'x!!y']               # fine for table / cxt / csv, not for wiki-table
 # inner control characters that are not line breaks (information separators, bell, escape, DEL, zero-width and
 # bidi marks, no-break spaces): allowed inside table / cxt labels by the property statement
